@@ -608,7 +608,7 @@ impl Runner {
         let mut cfg = Config::default();
         cfg.cases = per_shard.min(u32::MAX as u64) as u32;
         cfg.failure_persistence = None;
-        cfg.max_shrink_iters = 4000;
+        cfg.max_shrink_iters = u32::MAX;
         cfg.max_shrink_time = 0;
         cfg.verbose = 0;
         let rng = TestRng::from_seed(RngAlgorithm::ChaCha, &shard_seed(self.seed, self.prop, family, self.shard));
@@ -616,9 +616,18 @@ impl Runner {
         let lo = (choices / 2).max(1);
         let strat = proptest::collection::vec(proptest::num::u32::ANY, lo..=choices.max(lo));
         let failed = std::cell::Cell::new(false);
+        let shrink_calls = std::cell::Cell::new(0u32);
         let acc_cell = RefCell::new(Acc::default());
         let this = &*self;
         let res = runner.run(&strat, |v| {
+            if failed.get() {
+                // bound proptest's shrinking by work, not by time: after the budget every candidate
+                // "passes", so proptest settles on the best case found so far
+                shrink_calls.set(shrink_calls.get() + 1);
+                if shrink_calls.get() > 3000 {
+                    return Ok(());
+                }
+            }
             let c = gen(&mut Chooser::new(&v));
             let mut acc = acc_cell.borrow_mut();
             let r = this.judge(&mut acc, family, &c, &check, !failed.get());
